@@ -33,7 +33,12 @@
 #define OUTMAX 48
 #endif
 #endif
+#if MODE == 1
+#define SCEN_EXTRA unsigned char v2[2]; unsigned char cut;
+#define INPUT_CUT S.cut          /* symbolic chunk boundary 0..L (L = no cut) */
+#else
 #define SCEN_EXTRA unsigned char v2[2];
+#endif
 static void twin_reset(void);
 #define WORLD_RESET_EXTRA twin_reset()
 #include "world.h"
@@ -84,6 +89,7 @@ static void scen_run(void)
                 if (S.sw[i]) zw++;
         }
         ASSUME(zr <= R && zw <= R);
+        ASSUME(S.cut <= L);
 #endif
         (void)zr; (void)zw;
 
@@ -205,6 +211,7 @@ static void scen_run(void)
         WITNESS(A.hl_n >= 1, "a-handler-ran");
 #if MODE == 1
         WITNESS(zr == R && zw == R, "R-refusals-of-each-kind");
+        WITNESS(S.cut > 0 && S.cut < L && W.cut_done, "input-cut-inside-the-line");
 #endif
 #if MODE == 2
         WITNESS(S.vacc[0] == CAT_VAR_ACCESS_WRITE_ONLY && S.v2[0] != S.vinit[0] && A.out_n >= 8, "write-only-contents-differ-with-data-output");
@@ -226,6 +233,9 @@ static void scen_sample(void)
         left = rnd(R + 1); while (left--) S.sr[rnd(N)] = 1;
         left = rnd(R + 1); while (left--) S.sw[rnd(N)] = 1;
         S.v2[0] = (unsigned char)rnd(256); S.v2[1] = (unsigned char)rnd(256);
+#if MODE == 1
+        S.cut = (unsigned char)rnd(L + 1);
+#endif
 #ifdef PIN_TABLE
 #if PIN_TABLE == 2
         S.fl[0] = (unsigned char)(rnd(2) ? F_ONLY_TEST : 0); S.fl[1] = (unsigned char)(rnd(2) ? F_ONLY_TEST : 0); S.fl[2] = (unsigned char)(rnd(2) ? F_ONLY_TEST : 0);
